@@ -193,6 +193,11 @@ pub fn run_c07(chk: &Check, tier: Tier) {
     let all_ctrl: Vec<u8> = (0..32).collect();
     let all_vals: Vec<u16> = (0..16384).collect();
     for (i, &c) in channels.iter().enumerate() {
+        if i > 0 && chk.violation_count() > 0 {
+            // verdict known; the remaining channels would only repeat it
+            chk.not_exhaustive("C07: remaining channels skipped after a violation on the first");
+            break;
+        }
         // reachable states of channel c: the complete concrete fixpoint of the real scanner
         let mut sys = c08_system("C07", c, Report::default(), &all_values());
         if i == 0 {
@@ -201,10 +206,18 @@ pub fn run_c07(chk: &Check, tier: Tier) {
         }
         let out = xs::explore(&sys, &Limits::default());
         engine::record(chk, &sys, &out, None);
-        let states: Vec<ControlChange14BitMessageScanner> = out.nodes.iter().map(|n| n.state.sc).collect();
+        // (on the current tree there are 4097; a broken scanner can have millions - the product is
+        // then taken over the 20000 shallowest states and the run is reported as capped)
+        if out.nodes.len() > 20_000 {
+            chk.not_exhaustive(&format!("C07 channel {}: {} reachable states, inversion run from the 20000 shallowest only", c, out.nodes.len()));
+        }
+        let states: Vec<ControlChange14BitMessageScanner> = out.nodes.iter().take(20_000).map(|n| n.state.sc).collect();
         // full concrete product on the first channel (quick) / on every channel (thorough);
         // otherwise all states x all controllers x boundary values + all values for 2 controllers
-        let n = if i == 0 || tier.thorough() {
+        let n = if out.nodes.len() > 20_000 {
+            // abnormal state space (broken scanner): shallowest states x boundary values only
+            c07_inversion(chk, c, &states, &all_ctrl, &boundary14())
+        } else if i == 0 || tier.thorough() {
             c07_inversion(chk, c, &states, &all_ctrl, &all_vals)
         } else {
             c07_inversion(chk, c, &states, &all_ctrl, &boundary14()) + c07_inversion(chk, c, &states, &[0, 31], &all_vals)
@@ -225,7 +238,7 @@ pub fn run_c07_nostd(chk: &Check) {
     sys.storms = vec![(256, false), (65536, false)];
     let out = xs::explore(&sys, &Limits::default());
     engine::record(chk, &sys, &out, None);
-    let states: Vec<ControlChange14BitMessageScanner> = out.nodes.iter().map(|n| n.state.sc).collect();
+    let states: Vec<ControlChange14BitMessageScanner> = out.nodes.iter().take(20_000).map(|n| n.state.sc).collect();
     let all_ctrl: Vec<u8> = (0..32).collect();
     let n = c07_inversion(chk, 7, &states, &all_ctrl, &boundary14());
     chk.add_eval(n);
